@@ -68,6 +68,9 @@ type Prop struct {
 	DiffSignature func(d *Disagreement) string
 	// Extra lets a harness add property-specific numbers to the result.
 	Extra func() map[string]interface{}
+	// Stress is an optional extra search on the implementation alone (e.g. concurrent schedules, which a line
+	// protocol cannot express): it returns the violations it found. It is a search, never a proof.
+	Stress func(thorough bool, seed int64) []Violation
 }
 
 type Result struct {
@@ -392,6 +395,18 @@ func Main(p Prop) {
 					v = vv
 				}
 				addV(v)
+			}
+		}
+	}
+	if p.Stress != nil {
+		seenSig := map[string]bool{}
+		for _, v := range res.Violations {
+			seenSig[v.Signature] = true
+		}
+		for _, v := range p.Stress(thorough, *seed) {
+			if !seenSig[v.Signature] {
+				seenSig[v.Signature] = true
+				res.Violations = append(res.Violations, v)
 			}
 		}
 	}
